@@ -22,6 +22,11 @@ DESC = {
  "rewritten-plan-fails-to-execute": "the plan produced by the listed rule list fails to lower/execute although the unoptimized plan executes, on the listed inputs",
  "optimizer-error": "an optimizer rule returns an internal error on a valid statement, on the listed inputs",
  "schema-changed": "the rewritten plan's output column names/types differ from the bound plan's, on the listed inputs",
+ "schema-mismatch": "the schema the result reports differs from the schema of returned batches on the listed inputs (dominant class: UNION [ALL] batches produced by the right branch keep the right branch's column names while the reported schema uses the left branch's)",
+ "shard-scan-error": "a shard context fails on a statement the whole table answers, on the listed inputs",
+ "shard-exposes-whole-files": "a shard provider returns parquet_files() (whole-file fast paths would see every row) on the listed inputs",
+ "gathered-statement-does-not-bind": "on the gather path, re-running the statement over the gathered tables fails to bind/plan (Table/Column not found, unresolved alias, type error) where the single node answers, on the listed inputs",
+ "cross-product-or-lost-input": "JoinReorder produced a cross join / lost an input or predicate on the listed inputs",
  "hang": "statement did not finish within the deadline on the listed inputs",
 }
 DEVS = ["StrictBool", "InSubSkipsNull", "SetOpJoin", "DistinctKeepsNulls", "NullKeyGroupDropped"]
